@@ -534,6 +534,10 @@ func SymEig(s *Mat) ([]float64, *Mat) {
 	n := s.R
 	a := s.Clone()
 	v := Identity(n)
+	// off-diagonal entries below eps/2 * |S|_F / n are dropped instead of rotated away: rotating on rounding
+	// noise (huge angles between numerically equal diagonal entries) for up to 60 sweeps accumulated errors of
+	// 1e-14 in the eigenvalues of matrices with repeated eigenvalues; dropping perturbs them by <= eps/2 * |S|_F
+	thr := 1.1e-16 * s.NormFro() / float64(n)
 	for sweep := 0; sweep < 60; sweep++ {
 		off := 0.0
 		for i := 0; i < n; i++ {
@@ -551,7 +555,7 @@ func SymEig(s *Mat) ([]float64, *Mat) {
 					continue
 				}
 				app, aqq := a.At(p, p), a.At(q, q)
-				if math.Abs(apq) < 1e-300 {
+				if math.Abs(apq) < 1e-300 || math.Abs(apq) <= thr {
 					a.Set(p, q, 0)
 					a.Set(q, p, 0)
 					continue
@@ -623,7 +627,8 @@ func SingularValues(a *Mat) []float64 {
 					beta += y * y
 					gamma += x * y
 				}
-				if gamma == 0 || math.Abs(gamma) <= 1e-17*math.Sqrt(alpha*beta) {
+				// columns orthogonal to eps/2 are left alone (see SymEig: rotating on rounding noise loses digits)
+				if gamma == 0 || math.Abs(gamma) <= 1.1e-16*math.Sqrt(alpha*beta) {
 					continue
 				}
 				rotated = true
